@@ -104,16 +104,19 @@ def run(env, rep):
         ext_call = calls.get("add_extended_timestamp")
         its = calls.get("add_initial_timestamp")
         ins = [t for t in p if t[0] == "mut" and t[1] == "insert" and t[2] == "previous_headers"]
-        if ext_call is None or not ins:
+        if ext_call is None:
             continue
         hdr = ext_call[2][0] if ext_call[2] else ""
-        stored_n += 1
-        if len(ins) != 1 or ("&" + ins[0][3][1]) != hdr:
+        if ins:
+            stored_n += 1
+            if len(ins) != 1 or ("&" + ins[0][3][1]) != hdr:
+                stored_ok = False
+                why.append("the header inserted into previous_headers (%s) is not the header whose fields were emitted (%s)" % (ins[0][3][1][:120], hdr[:120]))
+        elif chunk.param_on_path(p, "continued_chunk") is not True and p and p[-1] == ("end", "ok"):
             stored_ok = False
-            why.append("the header inserted into previous_headers (%s) is not the header whose fields were emitted (%s)" % (ins[0][3][1][:120], hdr[:120]))
-        cont = [t for t in p if t[0] == "when" and t[1] == "load(continued_chunk)"]
-        forced = [t for t in p if t[0] == "when" and t[1] == "load(force_uncompressed)"]
-        if cont and cont[0][2].startswith("other") and forced and forced[0][2] == "0":
+            why.append("a path that writes the first chunk of a message does not remember its header: the next message on the chunk stream would be compressed against a header the peer has replaced")
+        has_prev = any(t[0] == "when" and t[1].startswith("discr(HashMap::get(") and "previous_headers" in t[1] and t[2] == "1" for t in p)
+        if chunk.param_on_path(p, "continued_chunk") is True and chunk.param_on_path(p, "force_uncompressed") is False and has_prev:
             cont_n += 1
             fields = hdr.split(", ")
             if len(fields) < 3 or not re.search(r"Some\.0\.timestamp_field\)$", fields[2]):
